@@ -103,3 +103,17 @@ var _ time.Time // lemmas below name package time
 //@   requires c != nil && len(c.S2C) <= 65535 && len(c.C2S) <= 65535
 //@   allocates
 //@   ensures shape: result1 == nil ==> len(result0.Nonce) == 16 && len(result0.Ciphertext) == 30+len(c.S2C)+len(c.C2S) && mathint(result0.ID) == floormod(mathint(keyid), 65536)
+
+// ---- client-side cookie pool (Fetcher.data.Cookie) ----
+
+//@ func (*Fetcher).StoreCookie
+//@   requires f != nil
+//@   modifies f.data.Cookie, f.data.Cookie[:]
+//@   allocates
+//@   ensures appended: len(f.data.Cookie) == old(len(f.data.Cookie))+1 && sameslice(f.data.Cookie[len(f.data.Cookie)-1], cookie)
+//@   ensures prefix: forall(q, 0, old(len(f.data.Cookie)), sameslice(f.data.Cookie[q], old(f.data.Cookie[q])))
+//@   ensures region: regionof(f.data.Cookie) == old(regionof(f.data.Cookie)) || fresh(f.data.Cookie)
+
+// VerifPool is a ghost accessor (compiled only with the tag "verif"): it lets contracts in other packages
+// name the client's cookie pool, which is an unexported field.
+func (f *Fetcher) VerifPool() *[][]byte { return &f.data.Cookie }
